@@ -23,7 +23,7 @@ CHUNK = 100
 TIERS = {'quick': dict(runs=60000, budget_s=240), 'thorough': dict(runs=2500000, budget_s=1500)}
 KINDS = ['list', 'dict', 'tuple', 'box']
 # bundled container printers that take part in cycle detection too (seeded histories only)
-MORE_KINDS = ['deque', 'odict', 'ns', 'mylist', 'mydict', 'ddict', 'ntuple', 'chainmap', 'chainmap_over']
+MORE_KINDS = ['pbox', 'pbox', 'deque', 'odict', 'ns', 'mylist', 'mydict', 'ddict', 'ntuple', 'chainmap', 'chainmap_over']
 NTL = collections.namedtuple('NTL', 'items tag')
 RULE = ('run index < K enumerates ALL graphs with <= 3 nodes over the node kinds list / dict / tuple-holding-a-list / '
         'Box and every subset of the n*n possible edges (self loops included); each is printed from every root, '
@@ -43,7 +43,7 @@ MAX_EXPECT = 5000
 MARK = re.compile(r'<Recursion on (\w+) with id=(\d+)>')
 
 P = PP = None
-ABORT = {'at': None, 'n': 0, 'rereg': None}
+ABORT = {'at': None, 'n': 0, 'rereg': None, 'nondoc': None}
 
 
 class Box:
@@ -54,9 +54,30 @@ class Box:
         return 'BoxRepr'
 
 
+class PBox:
+    """like Box, but its printer is registered through a predicate (the fall-back dispatch path)"""
+
+    def __init__(self):
+        self.kids = []
+
+    def __repr__(self):
+        return 'PBoxRepr'
+
+
+class _NotPBox:
+    pass
+
+
 def setup():
     global P, PP
     P, PP = core.import_package()
+
+    @P.register_pretty(predicate=lambda v: type(v) is PBox)
+    def ppbox(v, ctx):
+        ABORT['n'] += 1
+        if ABORT['nondoc'] is not None and ABORT['n'] == ABORT['nondoc']:
+            return None
+        return P.pretty_call(ctx, PBox, *v.kids)
 
     @P.register_pretty(Box)
     def pbox(v, ctx):
@@ -65,6 +86,8 @@ def setup():
             raise KeyboardInterrupt()
         if ABORT['rereg'] is not None and ABORT['n'] == ABORT['rereg']:
             _reregister_equivalent_printers()
+        if ABORT['nondoc'] is not None and ABORT['n'] == ABORT['nondoc']:
+            return None
         return P.pretty_call(ctx, Box, *v.kids)
 
 
@@ -166,6 +189,10 @@ def generate(rng, idx, tier):
                                                     'sort_dict_keys': rng.random() < 0.2,
                                                     # a finite depth that can never bind for <= 6 nodes: the finite-depth code path
                                                     'depth': rng.choice([None, None, 64, 100])}])
+        elif k == 'abort' and rng.random() < 0.3:
+            # a print that fails inside the bundled printers: max_seq_len=None (documented as 'no truncation')
+            # makes them raise, or a Box printer returns None so the enclosing printer sees a ValueError
+            ops.append(['failprint', rng.randrange(n), rng.choice(['max_seq_len_none', 'nondoc']), rng.randrange(1, 3)])
         elif k == 'abort':
             if rng.random() < 0.3:
                 # a print during which a Box printer re-registers equivalent printers for list/dict/tuple
@@ -218,7 +245,7 @@ def kids(n):
         return [n[k] for k in _dict_keys(n)]
     if isinstance(n, types.SimpleNamespace):
         return [vars(n)[k] for k in sorted(vars(n))]
-    if isinstance(n, Box):
+    if isinstance(n, (Box, PBox)):
         return list(n.kids)
     return None
 
@@ -275,8 +302,8 @@ def parse(text):
         if isinstance(e, ast.Call):
             f = e.func
             name = f.attr if isinstance(f, ast.Attribute) else getattr(f, 'id', '?')
-            if name == 'Box':
-                return ['Box', None, [conv(x) for x in e.args]]
+            if name in ('Box', 'PBox'):
+                return [name, None, [conv(x) for x in e.args]]
             if name == 'NTL':
                 return ['NTL', [k.arg for k in e.keywords], [conv(k.value) for k in e.keywords]]
             if name == 'ChainMap':
@@ -336,6 +363,8 @@ def execute(spec):
             elif kind == 'tuple':
                 leaf[0] += 1
                 nodes.append(([], leaf[0]))
+            elif kind == 'pbox':
+                nodes.append(PBox())
             elif kind == 'ntuple':
                 leaf[0] += 1
                 nodes.append(NTL([], leaf[0]))        # like 'tuple': cycles pass through the list field
@@ -415,12 +444,33 @@ def execute(spec):
                 t.pop(list(t)[op[2] % len(t)])
             elif isinstance(t, types.SimpleNamespace) and vars(t):
                 delattr(t, sorted(vars(t))[op[2] % len(vars(t))])
-            elif isinstance(t, Box) and t.kids:
+            elif isinstance(t, (Box, PBox)) and t.kids:
                 t.kids.pop(op[2] % len(t.kids))
             trace.append(op)
         elif k == 'cc':
             PP.pretty_dispatch._clear_cache()
             bump('dispatch_cache_cleared')
+            trace.append(op)
+        elif k == 'failprint':
+            if not nodes:
+                continue
+            root = nodes[op[1] % len(nodes)]
+            try:
+                expect(root, set(), [MAX_EXPECT])
+            except OverflowError:
+                continue
+            ABORT['n'] = 0
+            ABORT['at'] = None
+            ABORT['nondoc'] = op[3] if op[2] == 'nondoc' else None
+            try:
+                if op[2] == 'nondoc':
+                    P.pformat(root)
+                else:
+                    P.pformat(root, max_seq_len=None)
+                bump('failprint_returned')
+            except Exception:
+                bump('failprint_raised')
+            ABORT['nondoc'] = None
             trace.append(op)
         elif k in ('print', 'abort'):
             if not nodes:
